@@ -14,6 +14,17 @@ magnitude, n the order + 2): comparison is then exact (values, list lengths, exc
 Otherwise the case is in the *float* regime: tolerance 1e-9*(1+|x|), coefficient lists compared
 modulo trailing zeros, and cases whose exact recursion comes within 1e-4 (relative) of a zero
 divisor / of the |k| = 1 exit of kcovar are only required to satisfy the spec when they return.
+
+Histories.  The property fixes every result as a function of the argument VALUES of its call, so a
+case of entry "history" is a sequence of calls (and caller-side assignments `x[i] = v`) that share
+their argument objects: the same list / tuple / deque / read-only sequence / Stream / generator is
+handed to successive calls, or the list `acorr` returned is handed on.  Every call is answered by
+the Lean model/spec of THAT CALL ALONE on a pristine copy of the values the caller holds at that
+moment (driver entry "history" = the single-call payloads, nothing threaded between them); after
+every call every shared argument must still equal its pristine copy (values and types), results
+obtained earlier must not have changed, the harness scribbles on results it owns (a memoised /
+aliased result then shows up in a later call or in an argument), and a Stream / generator argument
+(rejected with TypeError: the functions need len()) must not have been consumed.
 """
 import json, math
 from fractions import Fraction as F
@@ -25,11 +36,18 @@ RULE = ("lag vectors from reflection coefficients (dyadic: exact regime; tenths 
         "from autocorrelations of data blocks, singular (k=+-1) and random small vectors; blocks of ints / "
         "Fractions / dyadic floats; orders 0..8, None, and >= len (zero extension); a case is non-trivial when "
         "the impl returns a filter of order >= 1 or a non-empty table, or raises the modelled exception; "
-        "distinct = distinct JSON case")
+        "distinct = distinct JSON case; histories: 2-4 calls among acorr / lag_matrix / toeplitz / levinson_durbin "
+        "(order below, equal to, above len(r); default) / lpc.kautocor / lpc.kcovar / lpc sharing one argument object "
+        "(list, tuple, deque, read-only sequence, Stream, generator; or the list acorr returned), caller-side "
+        "assignments between calls, all ordered pairs of a call menu over a few small lists; non-trivial when at "
+        "least two calls ran and one of them is non-trivial")
 TRUSTED = [
     "hand-written Lean model ALV/Model/C10.lean of lazy_lpc.toeplitz/levinson_durbin/lpc.kautocor/lpc.kcovar and "
     "lazy_analysis.acorr/lag_matrix (modelled, not verified: ZFilter/Poly arithmetic is taken as coefficient-wise "
     "arithmetic on numlists without trailing zeros; Stream.append/take for the zero extension)",
+    "histories: the harness' own bookkeeping (pristine copies, value+type equality of the shared arguments after every "
+    "call, re-observation of earlier results, scribbling on returned lists / tables / the error attribute) is trusted; "
+    "lpc (default strategy) needs numpy below order 100 (absent here: only the no-side-effect clauses are checked)",
     "float regime: the impl's numbers are binary floats (Poly zero = 0.), compared with tolerance 1e-9*(1+|x|) against "
     "the exact rational model; exact regime decided from the Lean trace (dyadic intermediates below 2^52)",
 ]
@@ -268,6 +286,9 @@ def generate(rng, tier, scale=1):
         kind = rng.choice(["int", "frac", "float"])
         cases.append({"entry": "toeplitz", "vect": encl([F(x) for x in _blk(rng, rng.randint(0, 9), kind)]),
                       "num": kind})
+    if scale == 1:
+        cases += _hist_exhaustive(tier)
+    cases += _hist_cases(rng, (500 if q else 12000) * scale, (2 if q else 12) if scale == 1 else 0)
     return cases
 
 
@@ -295,37 +316,47 @@ def _filt_obs(c, f):
     return obs
 
 
-def impl(c):
+def _impl_single(c, arg):
     from audiolazy import levinson_durbin, lpc, acorr, lag_matrix, toeplitz
     e = c["entry"]
-    _IMPL.pop(key(c), None)
     try:
         if e == "levinson":
-            r = _vals(c["r"], c["num"])
-            if c.get("seq") == "tuple":
-                r = tuple(r)
-            return _filt_obs(c, levinson_durbin(r, c["order"]) if c["order"] is not None else levinson_durbin(r))
+            return _filt_obs(c, levinson_durbin(arg, c["order"]) if c["order"] is not None else levinson_durbin(arg))
         if e == "kautocor":
-            b = _vals(c["blk"], c["num"])
-            return _filt_obs(c, lpc.kautocor(b, c["order"]) if c["order"] is not None else lpc.kautocor(b))
+            return _filt_obs(c, lpc.kautocor(arg, c["order"]) if c["order"] is not None else lpc.kautocor(arg))
         if e == "kcovar":
-            b = _vals(c["blk"], c["num"])
-            return _filt_obs(c, lpc.kcovar(b, c["order"]) if c["order"] is not None else lpc.kcovar(b))
+            return _filt_obs(c, lpc.kcovar(arg, c["order"]) if c["order"] is not None else lpc.kcovar(arg))
         if e == "acorr":
-            b = _vals(c["blk"], c["num"])
-            return {"out": encl(acorr(b, c["max_lag"]) if c["max_lag"] is not None else acorr(b))}
+            return {"out": encl(acorr(arg, c["max_lag"]) if c["max_lag"] is not None else acorr(arg))}
         if e == "lag_matrix":
-            b = _vals(c["blk"], c["num"])
-            t = lag_matrix(b, c["max_lag"]) if c["max_lag"] is not None else lag_matrix(b)
+            t = lag_matrix(arg, c["max_lag"]) if c["max_lag"] is not None else lag_matrix(arg)
             return {"out": [encl(row) for row in t]}
         if e == "toeplitz":
-            return {"out": [encl(row) for row in toeplitz(_vals(c["vect"], c["num"]))]}
+            return {"out": [encl(row) for row in toeplitz(arg)]}
     except Exception as ex:
         return {"err": err_kind(ex)}
     raise ValueError("unknown entry " + e)
 
 
+def impl(c):
+    e = c["entry"]
+    if e == "history":
+        return _impl_history(c)
+    _IMPL.pop(key(c), None)
+    vals = _vals(c[_FIELD.get(e, "blk")], c["num"])
+    arg = tuple(vals) if c.get("seq") == "tuple" else list(vals)
+    obs = _impl_single(c, arg)
+    if not _same(arg, vals):     # a call must leave its argument as the caller gave it
+        obs["arg_modified"] = _show(arg)
+    return obs
+
+
+_FIELD = {"levinson": "r", "toeplitz": "vect"}
+
+
 def request(c):
+    if c["entry"] == "history":
+        return {"entry": "history", "calls": [r for r in _HIST.get(key(c), []) if r is not None]}
     r = {k: v for k, v in c.items() if k not in ("num", "fam", "seq")}
     a = _IMPL.get(key(c))
     if a is not None:
@@ -512,6 +543,16 @@ def _cov_spec(entry, order, scale):
 
 
 def compare(c, io, drv):
+    if c["entry"] == "history":
+        return _compare_history(c, io, drv)
+    out = _compare_single(c, io, drv)
+    if "arg_modified" in io:
+        out.append(("spec", "%s modified its argument: the caller's %s %s became %s" %
+                    (c["entry"], c.get("seq", "list"), c[_FIELD.get(c["entry"], "blk")], io["arg_modified"])))
+    return out
+
+
+def _compare_single(c, io, drv):
     e = c["entry"]
     k = key(c)
     if e in ("acorr", "lag_matrix", "toeplitz"):
@@ -554,6 +595,9 @@ def compare(c, io, drv):
 # statistics, shrinking, search
 # ----------------------------------------------------------------------------------------
 def nontrivial(c, io):
+    if c["entry"] == "history":
+        ran = [(s, o) for s, o in zip(io.get("subs", []), io.get("calls", [])) if s is not None]
+        return len(ran) >= 2 and any(nontrivial(s, o) for s, o in ran)
     if "err" in io:
         return io["err"] in ("ParCorError", "ZeroDivisionError", "ValueError", "IndexError")
     if "a" in io:
@@ -564,6 +608,8 @@ def nontrivial(c, io):
 def tally(eng, c, io):
     e = c["entry"]
     eng.count("entry", e)
+    if e == "history":
+        return _tally_history(eng, c, io)
     info = _INFO.get(key(c), {})
     eng.count("regime", "%s:%s" % (e, info.get("regime", "?")))
     if info.get("skipped"):
@@ -608,6 +654,9 @@ def _simplify(xs):
 
 def shrink(c):
     e = c["entry"]
+    if e == "history":
+        yield from _shrink_history(c)
+        return
     fld = {"levinson": "r", "toeplitz": "vect"}.get(e, "blk")
     xs = c[fld]
     okey = "order" if e in ("levinson", "kautocor", "kcovar") else ("max_lag" if e != "toeplitz" else None)
@@ -635,6 +684,9 @@ def shrink(c):
 
 def neighbours(c):
     e = c["entry"]
+    if e == "history":
+        yield from _neighbours_history(c)
+        return
     fld = {"levinson": "r", "toeplitz": "vect"}.get(e, "blk")
     xs = c[fld]
     okey = "order" if e in ("levinson", "kautocor", "kcovar") else ("max_lag" if e != "toeplitz" else None)
@@ -655,6 +707,10 @@ def neighbours(c):
 
 def classify(c, io, drv):
     e = c["entry"]
+    if e == "history":
+        return _classify_history(c, io, drv)
+    if io.get("arg_modified") is not None:
+        return "%s:argument-modified" % e
     if "err" in io:
         m = drv.get("model")
         me = m.get("err", "returns") if isinstance(m, dict) else "returns"
@@ -669,3 +725,712 @@ def classify(c, io, drv):
             if w in d and w not in words:
                 words.append(w)
     return "%s:%s" % (e, "+".join(words) if words else "content")
+
+
+# ----------------------------------------------------------------------------------------
+# histories: sequences of calls sharing their argument objects
+# ----------------------------------------------------------------------------------------
+#   {"entry": "history",
+#    "objs":  [{"vals": [...], "num": "int|frac|float", "kind": "list|tuple|deque|roseq|stream|gen"}, ...],
+#    "calls": [{"fn": "levinson|kautocor|kcovar|lpc", "arg": A, "order": o, "scribble": bool},
+#              {"fn": "acorr|lag_matrix", "arg": A, "max_lag": o, "scribble": bool},
+#              {"fn": "toeplitz", "arg": A, "scribble": bool},
+#              {"fn": "poke", "arg": j, "idx": i, "val": v}]}      # the caller assigns x_j[i] = v
+#   A = j (the shared object x_j) or {"res": k} (the list that call number k, an acorr, returned).
+_HIST = {}       # key(history case) -> per step the driver request of that call (None: not a call)
+_SENT = 424242   # what the harness scribbles on the results it owns
+_KINDS = ("list", "tuple", "deque", "roseq", "stream", "gen")
+_MUTABLE = ("list", "deque")
+_NO_NUMPY = ("OTHER:ModuleNotFoundError", "OTHER:ImportError")
+_ORDER_KEY = {"levinson": "order", "kautocor": "order", "kcovar": "order", "lpc": "order",
+              "acorr": "max_lag", "lag_matrix": "max_lag"}
+_PYNAME = {"levinson": "levinson_durbin", "kautocor": "lpc.kautocor", "kcovar": "lpc.kcovar", "lpc": "lpc",
+           "acorr": "acorr", "lag_matrix": "lag_matrix", "toeplitz": "toeplitz"}
+
+
+class _ROSeq(object):
+    """a read-only sequence: len / index / iterate, nothing else"""
+    __slots__ = ("_x",)
+
+    def __init__(self, xs):
+        self._x = tuple(xs)
+
+    def __len__(self):
+        return len(self._x)
+
+    def __getitem__(self, i):
+        return self._x[i]
+
+    def __iter__(self):
+        return iter(self._x)
+
+
+def _mk(kind, vals):
+    if kind == "list":
+        return list(vals)
+    if kind == "tuple":
+        return tuple(vals)
+    if kind == "deque":
+        import collections
+        return collections.deque(vals)
+    if kind == "roseq":
+        return _ROSeq(vals)
+    if kind == "stream":
+        from audiolazy import Stream
+        return Stream(list(vals))
+    if kind == "gen":
+        return (x for x in list(vals))
+    raise ValueError(kind)
+
+
+def _same(live, prist):
+    """same values AND same number types, element by element"""
+    xs = list(live)
+    return len(xs) == len(prist) and all(type(x) is type(y) and x == y for x, y in zip(xs, prist))
+
+
+def _show(xs):
+    try:
+        return "[" + ", ".join(str(x) if isinstance(x, F) else repr(x) for x in xs) + "]"
+    except Exception:
+        return repr(xs)
+
+
+def _filt_enc(f):
+    return {"a": encl(list(f.numerator)), "error": enc(f.error), "den": encl(list(f.denominator))}
+
+
+def _subcase(st, vals_js, num):
+    fn = st["fn"]
+    if fn == "levinson":
+        return {"entry": "levinson", "r": vals_js, "order": st.get("order"), "num": num, "fam": "history", "seq": "list"}
+    if fn == "toeplitz":
+        return {"entry": "toeplitz", "vect": vals_js, "num": num}
+    if fn in ("acorr", "lag_matrix"):
+        return {"entry": fn, "blk": vals_js, "max_lag": st.get("max_lag"), "num": num}
+    if fn in ("kautocor", "kcovar", "lpc"):     # lpc at order >= 100 is lpc.kautocor
+        return {"entry": "kautocor" if fn == "lpc" else fn, "blk": vals_js, "order": st.get("order"), "num": num}
+    raise ValueError("history: unknown fn %r" % (fn,))
+
+
+def _call_text(st, names):
+    a = st.get("arg")
+    nm = names[a] if not isinstance(a, dict) else "y%d" % (a["res"] + 1)
+    if st["fn"] == "poke":
+        return "%s[%d] = %s" % (nm, st["idx"], st["val"])
+    ok = _ORDER_KEY.get(st["fn"])
+    o = st.get(ok) if ok else None
+    return "%s(%s%s)" % (_PYNAME[st["fn"]], nm, "" if o is None else ", %d" % o)
+
+
+def _describe(c):
+    names = ["x%d" % j for j in range(len(c["objs"]))]
+    parts = []
+    for nm, o in zip(names, c["objs"]):
+        k = o["kind"]
+        ctor = {"roseq": "ReadOnlySeq", "gen": "iter", "stream": "Stream"}.get(k, k)
+        parts.append("%s = %s([%s]%s)" % (nm, ctor, ", ".join(str(v) for v in o["vals"]),
+                                         "" if o["num"] == "int" else " as " + o["num"]))
+    for i, st in enumerate(c["calls"]):
+        t = _call_text(st, names)
+        parts.append(t if st["fn"] == "poke" else "y%d = %s" % (i + 1, t))
+    return "; ".join(parts)
+
+
+def _do_call(st, arg):
+    from audiolazy import levinson_durbin, lpc, acorr, lag_matrix, toeplitz
+    fn = st["fn"]
+    if fn == "toeplitz":
+        return toeplitz(arg)
+    f = {"levinson": levinson_durbin, "kautocor": lpc.kautocor, "kcovar": lpc.kcovar, "lpc": lpc,
+         "acorr": acorr, "lag_matrix": lag_matrix}[fn]
+    o = st.get(_ORDER_KEY[fn])
+    return f(arg, o) if o is not None else f(arg)
+
+
+def _observe(fn, res):
+    if fn in ("acorr",):
+        return {"out": encl(res)}
+    if fn in ("lag_matrix", "toeplitz"):
+        return {"out": [encl(row) for row in res]}
+    return _filt_enc(res)
+
+
+def _impl_history(c):
+    """run the history on live shared objects; report per call what the single-call `impl` reports,
+    plus the side effects (`effects`) and the single-call cases the calls stand for (`subs`)"""
+    objs, steps = c["objs"], c["calls"]
+    names = ["x%d" % j for j in range(len(objs))]
+    prist = [_vals(o["vals"], o["num"]) for o in objs]
+    live = [_mk(o["kind"], p) for o, p in zip(objs, prist)]
+    used_later = set()
+    for st in steps:
+        if isinstance(st.get("arg"), dict):
+            used_later.add(st["arg"]["res"])
+    calls, subs, reqs, effects = [], [], [], []
+    held = {}      # step -> (fn, live result, first observation): results the caller still holds untouched
+    reuse = {}     # step -> (live list acorr returned, pristine python values, num)
+    snap = [list(p) for p in prist]     # state of the shared objects before the current call
+    rsnap = {}
+    for i, st in enumerate(steps):
+        fn = st["fn"]
+        if fn == "poke":
+            j = st["arg"]
+            if objs[j]["kind"] in _MUTABLE and prist[j]:
+                v = _vals([st["val"]], objs[j]["num"])[0]
+                ix = st["idx"] % len(prist[j])
+                if ix < len(live[j]):        # (a modified list may have lost elements)
+                    live[j][ix] = v
+                prist[j][ix] = v
+                if ix < len(snap[j]):
+                    snap[j][ix] = v
+                calls.append({"poke": True})
+            else:
+                calls.append({"skipped": "poke"})
+            subs.append(None)
+            reqs.append(None)
+            continue
+        a = st["arg"]
+        if isinstance(a, dict):
+            if a["res"] not in reuse:
+                calls.append({"skipped": "no result to pass on"})
+                subs.append(None)
+                reqs.append(None)
+                continue
+            arg, avals, num = reuse[a["res"]]
+            kind = "list"
+        else:
+            kind, num, avals = objs[a]["kind"], objs[a]["num"], prist[a]
+            if kind in ("stream", "gen"):
+                live[a] = _mk(kind, avals)       # consumables: a fresh one per call
+            arg = live[a]
+        sub = _subcase(st, encl(avals), num)
+        res = None
+        try:
+            res = _do_call(st, arg)
+            ob = _observe(fn, res)
+        except Exception as ex:
+            ob = {"err": err_kind(ex)}
+            res = None
+        if kind in ("stream", "gen") and ob.get("err") == "TypeError":
+            ob["unsupported"] = kind
+            rest = list(arg)
+            if not _same(rest, avals):
+                effects.append({"at": i, "what": "stream-consumed", "fn": fn,
+                                "text": "%s raised TypeError on the %s argument but consumed it: %s left of %s" %
+                                        (_call_text(st, names), kind, _show(rest), _show(avals))})
+        # (a) no call may modify its arguments: every shared object is as it was before the call
+        #     (`snap`: its state before this call, = the pristine copy until a modification was reported;
+        #     the pristine copy stays the reference of every later call)
+        for j, o in enumerate(objs):
+            if o["kind"] in _MUTABLE and not _same(live[j], snap[j]):
+                effects.append({"at": i, "what": "argument-modified", "fn": fn,
+                                "text": "%s changed the caller's %s %s = %s into %s" %
+                                        (_call_text(st, names), o["kind"], names[j], _show(snap[j]), _show(live[j]))})
+                snap[j] = list(live[j])
+        for k in sorted(reuse):
+            lst, pv, _n = reuse[k]
+            if not _same(lst, rsnap[k]):
+                effects.append({"at": i, "what": "argument-modified", "fn": fn,
+                                "text": "%s changed the list y%d = %s (returned by acorr, held by the caller) into %s" %
+                                        (_call_text(st, names), k + 1, _show(rsnap[k]), _show(lst))})
+                rsnap[k] = list(lst)
+        # (b) results obtained earlier do not change
+        for k, (kfn, kres, kobs) in sorted(held.items()):
+            try:
+                now = _observe(kfn, kres)
+            except Exception as ex:
+                now = {"err": err_kind(ex)}
+            if now != kobs:
+                effects.append({"at": i, "what": "result-changed-later", "fn": fn,
+                                "text": "after %s the result y%d of %s changed from %s to %s" %
+                                        (_call_text(st, names), k + 1, _call_text(steps[k], names),
+                                         json.dumps(kobs)[:120], json.dumps(now)[:120])})
+                held[k] = (kfn, kres, now)
+        calls.append(ob)
+        subs.append(sub)
+        r = {k: v for k, v in sub.items() if k not in ("num", "fam", "seq")}
+        if "a" in ob and all(not isinstance(x, str) or x not in ("nan", "inf", "-inf") for x in ob["a"]):
+            r["impl_a"] = ob["a"]
+        reqs.append(r)
+        if res is None:
+            continue
+        if fn == "acorr" and i in used_later and isinstance(res, list):
+            reuse[i] = (res, list(res), num)
+            rsnap[i] = list(res)
+        elif st.get("scribble"):
+            # the caller owns what it was given: write on it; nobody else may see that
+            try:
+                if fn == "acorr":
+                    if res:
+                        res[0] = _SENT
+                    res.append(_SENT)
+                elif fn in ("lag_matrix", "toeplitz"):
+                    if res:
+                        before = [list(row) for row in res[1:]]
+                        res[0].append(_SENT)
+                        if res[0]:
+                            res[0][0] = _SENT
+                        if [list(row) for row in res[1:]] != before:
+                            effects.append({"at": i, "what": "result-rows-alias", "fn": fn,
+                                            "text": "rows of the table %s returned alias each other: writing on "
+                                                    "row 0 changed another row" % _call_text(st, names)})
+                    res.append([_SENT])
+                else:
+                    res.error = _SENT
+            except Exception as ex:
+                effects.append({"at": i, "what": "result-not-writable", "fn": fn,
+                                "text": "the result of %s cannot be written on: %s" % (_call_text(st, names), err_kind(ex))})
+            # writing on a result must not reach the arguments either
+            for j, o in enumerate(objs):
+                if o["kind"] in _MUTABLE and not _same(live[j], snap[j]):
+                    effects.append({"at": i, "what": "result-aliases-argument", "fn": fn,
+                                    "text": "writing on the result of %s changed the caller's %s from %s to %s" %
+                                            (_call_text(st, names), names[j], _show(snap[j]), _show(live[j]))})
+                    snap[j] = list(live[j])
+            for k in sorted(reuse):
+                if not _same(reuse[k][0], rsnap[k]):
+                    effects.append({"at": i, "what": "result-aliases-argument", "fn": fn,
+                                    "text": "writing on the result of %s changed the list y%d held by the caller from "
+                                            "%s to %s" % (_call_text(st, names), k + 1, _show(rsnap[k]), _show(reuse[k][0]))})
+                    rsnap[k] = list(reuse[k][0])
+            for k, (kfn, kres, kobs) in sorted(held.items()):
+                try:
+                    now = _observe(kfn, kres)
+                except Exception as ex:
+                    now = {"err": err_kind(ex)}
+                if now != kobs:
+                    effects.append({"at": i, "what": "results-alias", "fn": fn,
+                                    "text": "writing on the result of %s changed the earlier result y%d of %s" %
+                                            (_call_text(st, names), k + 1, _call_text(steps[k], names))})
+                    held[k] = (kfn, kres, now)
+        else:
+            held[i] = (fn, res, ob)
+    _HIST[key(c)] = reqs
+    return {"calls": calls, "subs": subs, "effects": effects}
+
+
+def _hist_problems(c, io, drv):
+    """[(step, kind, what, fn, text)] in the order of the history"""
+    out = []
+    payloads = list(drv.get("calls", []))
+    infos = []
+    pos = 0
+    names = ["x%d" % j for j in range(len(c["objs"]))]
+    effs = {}
+    for ef in io.get("effects", []):
+        effs.setdefault(ef["at"], []).append(ef)
+    for i, st in enumerate(c["calls"]):
+        sub = io["subs"][i] if i < len(io.get("subs", [])) else None
+        if sub is not None:
+            ob = io["calls"][i]
+            pay = payloads[pos] if pos < len(payloads) else None
+            pos += 1
+            if pay is None:
+                out.append((i, "model", "driver", st["fn"], "no driver payload for call %d" % (i + 1)))
+            else:
+                skip = None
+                if ob.get("unsupported"):
+                    skip = "TypeError on a %s argument (needs len())" % ob["unsupported"]
+                elif st["fn"] == "lpc" and ob.get("err") in _NO_NUMPY + ("TypeError",):
+                    o = st.get("order")
+                    m = pay.get("model")
+                    if o is None or o < 100 or (isinstance(m, dict) and m.get("err") == "ParCorError"):
+                        skip = "lpc default strategy needs numpy / an int order here"
+                if skip:
+                    infos.append({"entry": sub["entry"], "skip": skip})
+                else:
+                    ob2 = {k: v for k, v in ob.items() if k != "unsupported"}
+                    for kind, d in _compare_single(sub, ob2, pay):
+                        out.append((i, kind, "wrong-result", st["fn"],
+                                    "call %d %s on the values %s: %s" % (i + 1, _call_text(st, names),
+                                                                        sub[_FIELD.get(sub["entry"], "blk")], d)))
+                    inf = dict(_INFO.get(key(sub), {}))
+                    inf["entry"] = sub["entry"]
+                    infos.append(inf)
+        for ef in effs.get(i, []):
+            out.append((i, "spec", ef["what"], ef["fn"], ef["text"]))
+    _INFO[key(c)] = {"subs": infos}
+    return out
+
+
+def _compare_history(c, io, drv):
+    if "err" in io:     # the harness' own bookkeeping failed
+        return [("model", "history: harness error %s %s" % (io["err"], io.get("trace", "")[-300:]))]
+    probs = _hist_problems(c, io, drv)
+    if not probs:
+        return []
+    # effects first: the engine truncates the joined detail
+    probs.sort(key=lambda p: (p[2] == "wrong-result", p[0]))
+    out = [(kind, text) for _i, kind, _w, _f, text in probs]
+    k0, t0 = out[0]
+    out[0] = (k0, "history [%s]: %s" % (_describe(c), t0))
+    return out
+
+
+def _classify_history(c, io, drv):
+    """the first thing that goes wrong along the history (what + which function), and whether a
+    later call returns a wrong result because of it; lpc (default strategy) counts as lpc.kautocor"""
+    if "err" in io:
+        return "history:harness-error"
+    first = None
+    for i, kind, what, fn, _t in _hist_problems(c, io, drv):
+        if kind != "spec":
+            continue
+        if first is None:
+            first = (i, "%s:%s" % (what, "kautocor" if fn == "lpc" else fn))
+        elif what == "wrong-result" and i > first[0]:
+            return "history:%s+wrong-result-later" % first[1]
+    return "history:" + (first[1] if first else "model-only")
+
+
+def _tally_history(eng, c, io):
+    objs, steps = c["objs"], c["calls"]
+    for o in objs:
+        eng.count("hist_container", o["kind"])
+        eng.count("hist_number_type", o["num"])
+    real = [st for st in steps if st["fn"] != "poke"]
+    eng.count("hist_calls_per_history", len(real))
+    if "calls" not in io:
+        return
+    extended = set()     # shared objects (or results) that a levinson call with order >= len has seen
+    seen = set()
+    lens = [len(o["vals"]) for o in objs]
+    for i, st in enumerate(steps):
+        fn = st["fn"]
+        ob = io["calls"][i]
+        eng.count("hist_call_kind", fn)
+        if fn == "poke":
+            eng.count("hist_pattern", "caller assigns between calls")
+            continue
+        if "skipped" in ob:
+            eng.count("hist_call_outcome", "skipped (%s)" % ob["skipped"])
+            continue
+        a = st["arg"]
+        ak = "res%d" % a["res"] if isinstance(a, dict) else "obj%d" % a
+        eng.count("hist_arg_source", "list returned by acorr" if isinstance(a, dict) else "shared " + objs[a]["kind"])
+        if isinstance(a, dict):
+            eng.count("hist_pattern", "acorr result passed on")
+        n = len(io["subs"][i][_FIELD.get(io["subs"][i]["entry"], "blk")])
+        sig = json.dumps([fn, ak, st.get("order"), st.get("max_lag")])
+        if sig in seen:
+            eng.count("hist_pattern", "same call repeated on the same object")
+        seen.add(sig)
+        if st.get("scribble") and "err" not in ob:
+            eng.count("hist_pattern", "caller writes on the result")
+        if fn == "levinson":
+            o = st.get("order")
+            rel = "default" if o is None else ("order<len-1" if o < n - 1 else "order=len-1" if o == n - 1 else
+                                              "order>=len (zero ext)")
+            eng.count("hist_lev_order_vs_len", rel)
+            if ak in extended and o is None:
+                eng.count("hist_pattern", "levinson order>=len, then default order on the same list")
+            if o is not None and o >= n:
+                extended.add(ak)
+        elif fn == "toeplitz":
+            if ak in extended:
+                eng.count("hist_pattern", "levinson order>=len, then toeplitz of the same list")
+        else:
+            o = st.get(_ORDER_KEY[fn])
+            eng.count("hist_%s_order_vs_len" % fn, "default" if o is None else ("order<len" if o < n else "order>=len"))
+        if ob.get("unsupported"):
+            eng.count("hist_call_outcome", "%s:TypeError on %s, nothing consumed" % (fn, ob["unsupported"]))
+        else:
+            eng.count("hist_call_outcome", "%s:%s" % (fn, ob.get("err", "returns")))
+    for inf in _INFO.get(key(c), {}).get("subs", []):
+        if "skip" in inf:
+            eng.count("hist_call_not_compared", inf["skip"])
+        else:
+            eng.count("regime", "history/%s:%s" % (inf["entry"], inf.get("regime", "?")))
+            if inf.get("skipped"):
+                eng.count("float_ill_conditioned_model_comparison_skipped", "history/" + inf["entry"])
+    eng.count("hist_side_effects_seen", len(io.get("effects", [])))
+
+
+# --- generation -------------------------------------------------------------------------
+def _pick_kind(rng):
+    return rng.choice(["list"] * 11 + ["tuple"] * 2 + ["deque"] * 2 + ["roseq", "roseq", "stream", "gen"])
+
+
+def _lag_call(rng, n):
+    t = rng.choice(["lt", "eq", "ge", "ge", "ge", "none", "none", "none", "toeplitz", "toeplitz"])
+    if t == "toeplitz":
+        return {"fn": "toeplitz"}
+    if t == "none":
+        return {"fn": "levinson", "order": None}
+    if t == "lt" and n >= 2:
+        return {"fn": "levinson", "order": rng.randint(0, n - 2)}
+    if t == "eq" and n >= 1:
+        return {"fn": "levinson", "order": n - 1}
+    return {"fn": "levinson", "order": min(n + rng.randint(0, 2), 9) if n <= 9 else n}
+
+
+def _poke_step(rng, j, o, lags):
+    """the caller assigns to one element of its list.  A lag vector only gets its r[0] doubled (T + r0*I:
+    every reflection coefficient shrinks, the float regime stays as well conditioned as it was - an
+    arbitrary new lag makes |k| >> 1 and the float recursion loses digits the tolerance does not cover)"""
+    xs = o["vals"]
+    if lags:
+        r0 = dec(xs[0])
+        return {"fn": "poke", "arg": j, "idx": 0, "val": enc(2 * r0) if r0 != 0 else 1}
+    v = rng.randint(-3, 3) if o["num"] == "int" else enc(F(rng.randint(-6, 6), 2))
+    return {"fn": "poke", "arg": j, "idx": rng.randrange(len(xs)), "val": v}
+
+
+def _blk_call(rng, n):
+    fn = rng.choice(["acorr", "acorr", "lag_matrix", "lag_matrix", "kautocor", "kautocor", "kcovar", "kcovar", "lpc"])
+    o = rng.choice([None, None, 0, 1, 2, 3, max(n - 1, 0), n, n + 1, n + 2])
+    if fn == "lpc":
+        return {"fn": "lpc", "order": rng.choice([0, 1, 2, 3, 5])}
+    if fn == "kautocor" and o is not None:
+        o = min(o, 9)
+    if fn == "kcovar" and o is not None and o < n:
+        o = min(o, 5)
+    return {"fn": fn, _ORDER_KEY[fn]: o}
+
+
+def _hist_cases(rng, n, n_lpc100):
+    out = []
+    for it in range(n):
+        tpl = rng.choice(["lags", "lags", "lags", "block", "block", "chain", "chain", "both"])
+        objs, calls = [], []
+        ncalls = rng.randint(2, 4)
+        if tpl in ("lags", "both"):
+            base = _lev_cases(rng, 1)[0]
+            r = base["r"][:rng.choice([1, 2, 3, 3, 4, 4, 5, 6, 8])]
+            objs.append({"vals": r, "num": base["num"], "kind": _pick_kind(rng)})
+        if tpl in ("block", "chain", "both"):
+            base = _blk_cases(rng, 1, rng.choice(["kautocor", "kcovar", "acorr"]))[0]
+            b = base["blk"][:rng.choice([2, 3, 4, 5, 6, 8, 12, 16])]
+            if base["num"] == "float" and any(dec(x).denominator > 8 or abs(dec(x)) > 64 for x in b):
+                # acorr / lag_matrix / toeplitz are compared exactly: float samples only when their products
+                # and sums are exact (the decaying kcovar blocks have 30-bit samples: keep them as Fractions)
+                base["num"] = "frac"
+            objs.append({"vals": b, "num": base["num"],
+                         "kind": _pick_kind(rng) if tpl != "chain" or rng.random() < 0.5 else "list"})
+        if tpl == "lags":
+            calls = [dict(_lag_call(rng, len(objs[0]["vals"])), arg=0) for _ in range(ncalls)]
+        elif tpl == "block":
+            calls = [dict(_blk_call(rng, len(objs[0]["vals"])), arg=0) for _ in range(ncalls)]
+        elif tpl == "both":
+            for _ in range(ncalls):
+                if rng.random() < 0.5:
+                    calls.append(dict(_lag_call(rng, len(objs[0]["vals"])), arg=0))
+                else:
+                    calls.append(dict(_blk_call(rng, len(objs[1]["vals"])), arg=1))
+        else:   # chain: y1 = acorr(blk, L), then the list y1 is handed on
+            nb = len(objs[0]["vals"])
+            L = rng.choice([None, None, 1, 2, 3, max(nb - 1, 0), nb, nb + 1])
+            calls = [{"fn": "acorr", "max_lag": L, "arg": 0}]
+            nr = (L + 1) if L is not None else nb
+            for _ in range(ncalls - 1):
+                u = rng.random()
+                if u < 0.7:
+                    calls.append(dict(_lag_call(rng, nr), arg={"res": 0}))
+                elif u < 0.85:
+                    calls.append({"fn": "acorr", "max_lag": L, "arg": 0})
+                else:
+                    calls.append(dict(_blk_call(rng, nb), arg=0))
+        if rng.random() < 0.15 and objs[-1]["kind"] in _MUTABLE and objs[-1]["vals"]:
+            # the same call before and after the caller changed one element of its list
+            j = len(objs) - 1
+            first = next((st for st in calls if st.get("arg") == j), None)
+            if first is not None:
+                calls = [st for st in calls if not isinstance(st.get("arg"), dict)][:2]
+                if first not in calls:
+                    calls = [first] + calls[:1]
+                calls += [_poke_step(rng, j, objs[j], tpl == "lags"), dict(first)]
+        # the caller modifies its own list between two calls
+        elif rng.random() < 0.25 and len(calls) >= 2:
+            j = rng.randrange(len(objs))
+            if objs[j]["kind"] in _MUTABLE and objs[j]["vals"]:
+                calls.insert(rng.randint(1, len(calls) - 1),
+                             _poke_step(rng, j, objs[j], tpl == "lags" or (tpl == "both" and j == 0)))
+                # a chain keeps referring to call 0 only: inserting after position 0 keeps {"res": 0} valid
+        for st in calls:
+            if st["fn"] != "poke":
+                st["scribble"] = rng.random() < 0.5
+        out.append({"entry": "history", "objs": objs, "calls": calls})
+    for it in range(n_lpc100):
+        # lpc (default strategy) at order >= 100 is lpc.kautocor: tiny sparse blocks keep the exact
+        # rational order-100 run of the model at ~2 s (a dense [2, 1]: ~5 s, every fourth one)
+        if it % 4 == 3:
+            b = [rng.choice([2, 3, 4]), rng.choice([1, -1])]
+        else:
+            b = [rng.choice([1, 2])] + [0] * rng.randint(1, 3) + [rng.choice([1, -1])]
+        calls = [{"fn": "lpc", "order": 100, "arg": 0, "scribble": True},
+                 rng.choice([{"fn": "acorr", "max_lag": None, "arg": 0, "scribble": True},
+                             {"fn": "kautocor", "order": 1, "arg": 0, "scribble": False},
+                             {"fn": "lag_matrix", "max_lag": 1, "arg": 0, "scribble": True}])]
+        if rng.random() < 0.5:
+            calls.reverse()
+        out.append({"entry": "history", "objs": [{"vals": b, "num": "int", "kind": "list"}], "calls": calls})
+    return out
+
+
+def _hist_exhaustive(tier):
+    """every ordered pair of calls of a small menu on one shared list (first result written on),
+    plus every pair followed by the default-order / table call that exposes a changed length"""
+    q = tier == "quick"
+    out = []
+    lag_lists = [[2], [2, 1], [6, 0, -1], [4, 2, 1]] + ([] if q else [[], [8, 4, 2, 1], [12, 6, 0, -3, -6]])
+    for r in lag_lists:
+        n = len(r)
+        menu = [{"fn": "levinson", "order": None}, {"fn": "toeplitz"}, {"fn": "levinson", "order": n},
+                {"fn": "levinson", "order": n + 2}]
+        if n >= 1:
+            menu.append({"fn": "levinson", "order": n - 1})
+        if n >= 2:
+            menu.append({"fn": "levinson", "order": n - 2})
+        for a in menu:
+            for b in menu:
+                for kind in (("list",) if q else ("list", "deque", "tuple")):
+                    out.append({"entry": "history", "objs": [{"vals": list(r), "num": "int", "kind": kind}],
+                                "calls": [dict(a, arg=0, scribble=True), dict(b, arg=0, scribble=False)]})
+    # the same call before and after the caller assigned to an element of its list
+    for r in lag_lists:
+        n = len(r)
+        for a in ({"fn": "levinson", "order": None}, {"fn": "toeplitz"}, {"fn": "levinson", "order": n + 1},
+                  {"fn": "levinson", "order": max(n - 1, 0)}):
+            for ix in range(n):
+                for scr in (False, True):
+                    # small lists: any element; the longer ones: r[0] doubled only (see _poke_step)
+                    if n > 3 and ix > 0:
+                        continue
+                    out.append({"entry": "history", "objs": [{"vals": list(r), "num": "int", "kind": "list"}],
+                                "calls": [dict(a, arg=0, scribble=scr),
+                                          {"fn": "poke", "arg": 0, "idx": ix, "val": 3 if n <= 3 else 2 * r[0]},
+                                          dict(a, arg=0, scribble=False)]})
+    blocks = [[1, 2], [1, 2, -1], [3, -1, 2, 5], [1, 1, 1]] + ([] if q else [[], [2], [1, 0, -1, 0, 1, 0]])
+    for blk in blocks:
+        n = len(blk)
+        menu = [{"fn": "acorr", "max_lag": None}, {"fn": "acorr", "max_lag": 1}, {"fn": "acorr", "max_lag": n + 1},
+                {"fn": "lag_matrix", "max_lag": None}, {"fn": "lag_matrix", "max_lag": 1},
+                {"fn": "kautocor", "order": None}, {"fn": "kautocor", "order": n + 1}, {"fn": "kcovar", "order": 1}]
+        for a in menu:
+            for b in menu:
+                for kind in (("list",) if q else ("list", "deque", "tuple")):
+                    out.append({"entry": "history", "objs": [{"vals": list(blk), "num": "int", "kind": kind}],
+                                "calls": [dict(a, arg=0, scribble=True), dict(b, arg=0, scribble=False)]})
+        for a in menu:
+            for ix in (0, n - 1):
+                out.append({"entry": "history", "objs": [{"vals": list(blk), "num": "int", "kind": "list"}],
+                            "calls": [dict(a, arg=0, scribble=bool(ix)), {"fn": "poke", "arg": 0, "idx": ix, "val": -2},
+                                      dict(a, arg=0, scribble=False)]})
+        # the library's own acorr output handed on
+        for L in (None, 1, n + 1):
+            nr = n if L is None else L + 1
+            for a in ({"fn": "levinson", "order": nr}, {"fn": "levinson", "order": nr + 2},
+                      {"fn": "levinson", "order": None}, {"fn": "toeplitz"}):
+                for b in ({"fn": "levinson", "order": None}, {"fn": "toeplitz"}, {"fn": "acorr", "max_lag": L}):
+                    out.append({"entry": "history", "objs": [{"vals": list(blk), "num": "int", "kind": "list"}],
+                                "calls": [{"fn": "acorr", "max_lag": L, "arg": 0, "scribble": False},
+                                          dict(a, arg={"res": 0}, scribble=False),
+                                          dict(b, arg=0 if b["fn"] == "acorr" else {"res": 0}, scribble=False)]})
+    return out
+
+
+# --- shrinking / search -----------------------------------------------------------------
+def _drop_step(c, i):
+    """history without step i (and without the calls that use its result)"""
+    calls = []
+    remap = {}
+    for k, st in enumerate(c["calls"]):
+        if k == i:
+            continue
+        a = st.get("arg")
+        if isinstance(a, dict):
+            if a["res"] == i or a["res"] not in remap:
+                continue
+            st = dict(st, arg={"res": remap[a["res"]]})
+        remap[k] = len(calls)
+        calls.append(st)
+    return dict(c, calls=calls)
+
+
+def _shrink_history(c):
+    objs, calls = c["objs"], c["calls"]
+    # fewer steps
+    if len(calls) > 1:
+        for i in range(len(calls)):
+            d = _drop_step(c, i)
+            if d["calls"]:
+                yield d
+    # unused objects
+    used = {st["arg"] for st in calls if not isinstance(st.get("arg"), dict)}
+    for j in range(len(objs)):
+        if j not in used and len(objs) > 1:
+            yield dict(c, objs=objs[:j] + objs[j + 1:],
+                       calls=[st if isinstance(st.get("arg"), dict) else dict(st, arg=st["arg"] - (st["arg"] > j))
+                              for st in calls])
+    # plainer steps
+    for i, st in enumerate(calls):
+        def put(new):
+            return dict(c, calls=calls[:i] + [new] + calls[i + 1:])
+        if st["fn"] == "poke":
+            if st["val"] != 0:
+                yield put(dict(st, val=0))
+            if st["idx"] != 0:
+                yield put(dict(st, idx=0))
+            continue
+        if st.get("scribble"):
+            yield put(dict(st, scribble=False))
+        if st["fn"] == "lpc":
+            yield put(dict(st, fn="kautocor", order=min(st.get("order") or 0, 3)))
+        ok = _ORDER_KEY.get(st["fn"])
+        if ok:
+            o = st.get(ok)
+            if o is not None and o > 0:
+                yield put(dict(st, **{ok: o - 1}))
+                if o > 4:
+                    yield put(dict(st, **{ok: o // 2}))
+            if o is not None and st["fn"] != "lpc":
+                yield put(dict(st, **{ok: None}))
+    # smaller / plainer shared objects
+    for j, o in enumerate(objs):
+        def puto(new):
+            return dict(c, objs=objs[:j] + [new] + objs[j + 1:])
+        xs = o["vals"]
+        if o["kind"] != "list":
+            yield puto(dict(o, kind="list"))
+        if xs:
+            yield puto(dict(o, vals=xs[:-1]))
+            yield puto(dict(o, vals=xs[1:]))
+            # ... together with the orders that refer to the length
+            dec_calls = []
+            for st in calls:
+                ok = _ORDER_KEY.get(st["fn"])
+                if ok and st.get("arg") == j and st.get(ok):
+                    st = dict(st, **{ok: st[ok] - 1})
+                dec_calls.append(st)
+            yield dict(c, objs=objs[:j] + [dict(o, vals=xs[:-1])] + objs[j + 1:], calls=dec_calls)
+        if len(xs) <= 8:
+            for ys in _simplify(xs):
+                if o["num"] == "int" and any(dec(y).denominator != 1 for y in ys):
+                    continue
+                yield puto(dict(o, vals=ys))
+        if o["num"] != "int" and all(dec(x).denominator == 1 for x in xs):
+            yield puto(dict(o, num="int"))
+
+
+def _neighbours_history(c):
+    objs, calls = c["objs"], c["calls"]
+    for j, o in enumerate(objs):
+        for k in ("list", "deque", "tuple"):
+            if k != o["kind"]:
+                yield dict(c, objs=objs[:j] + [dict(o, kind=k)] + objs[j + 1:])
+    for i, st in enumerate(calls):
+        ok = _ORDER_KEY.get(st["fn"])
+        if ok and st["fn"] != "lpc":
+            o = st.get(ok)
+            for d in (-1, 1, 2):
+                if o is not None and o + d >= 0:
+                    yield dict(c, calls=calls[:i] + [dict(st, **{ok: o + d})] + calls[i + 1:])
+            if o is not None:
+                yield dict(c, calls=calls[:i] + [dict(st, **{ok: None})] + calls[i + 1:])
+    if len(calls) >= 2:
+        if not any(isinstance(st.get("arg"), dict) for st in calls):
+            yield dict(c, calls=calls[::-1])
+        # one more look at the shared list after everything else
+        for extra in ({"fn": "levinson", "order": None}, {"fn": "toeplitz"}, {"fn": "acorr", "max_lag": None}):
+            yield dict(c, calls=calls + [dict(extra, arg=0, scribble=False)])
